@@ -738,3 +738,78 @@ pub fn view_request(f: &[u8]) -> Option<ReqView> {
     }
     Some(v)
 }
+
+// ---------------------------------------------------------------------------------------
+// header variations that do not change who is asked what
+
+/// IP header fields that the responder is not documented to look at: type of service / traffic
+/// class, identification / flow label, the three IPv4 flag bits (reserved, DF, MF — fragment
+/// offset stays 0, so a set MF bit describes a first fragment that holds the complete request),
+/// TTL / hop limit (>= 1).
+#[derive(Clone, Debug, Serialize, Deserialize, PartialEq, Eq, Hash)]
+pub struct IpTweak {
+    pub tos: u8,
+    pub id: u16,
+    pub flags: u8,
+    pub ttl: u8,
+}
+
+/// apply to a consistent Ethernet/IPv4 or Ethernet/IPv6 frame (no-op otherwise); the IPv4 header
+/// checksum is recomputed; the hop limit of ICMPv6 neighbour discovery messages is left at 255
+pub fn apply_ip_tweak(f: &mut Vec<u8>, t: &IpTweak) -> bool {
+    if f.len() < 14 + 20 {
+        return false;
+    }
+    let et = be16(f, 12);
+    if et == ET_V4 && f[14] >> 4 == 4 {
+        let ihl = ((f[14] & 0x0f) as usize) * 4;
+        if ihl < 20 || f.len() < 14 + ihl {
+            return false;
+        }
+        f[15] = t.tos;
+        f[18] = (t.id >> 8) as u8;
+        f[19] = t.id as u8;
+        f[20] = ((t.flags & 7) << 5) | (f[20] & 0x1f);
+        f[22] = t.ttl.max(1);
+        f[24] = 0;
+        f[25] = 0;
+        let c = inet_csum(&f[14..14 + ihl], 0);
+        f[24] = (c >> 8) as u8;
+        f[25] = c as u8;
+        true
+    } else if et == ET_V6 && f.len() >= 14 + 40 && f[14] >> 4 == 6 {
+        f[14] = 0x60 | (t.tos >> 4);
+        f[15] = (t.tos << 4) | ((t.flags & 0x0f) as u8);
+        f[16] = (t.id >> 8) as u8;
+        f[17] = t.id as u8;
+        let nd = f[20] == P_ICMP6 && f.len() > 54 && (133..=137).contains(&f[54]);
+        if !nd {
+            f[21] = t.ttl.max(1);
+        }
+        true
+    } else {
+        false
+    }
+}
+
+/// An ICMP error message (IPv4: type 3/4/5/11/12 ...; IPv6: type 1..4) sent by the client of
+/// `net`, quoting the header of a packet the *responder* would have sent to that client:
+/// IP header (server -> client, `qproto`) followed by `l4` (the first bytes of the quoted
+/// transport header).
+pub fn icmp_error_frame(net: &Net, typ: u8, code: u8, qproto: u8, l4: &[u8]) -> Vec<u8> {
+    match (&net.cip, &net.sip) {
+        (IpAddr::V4(c), IpAddr::V4(s)) => {
+            let q = ip4(&Ip4H::new(s.octets(), c.octets(), qproto), l4);
+            let mut rest = vec![0u8; 4];
+            rest.extend_from_slice(&q);
+            ip_frame(net, P_ICMP, &icmp4(typ, code, &rest))
+        }
+        (IpAddr::V6(c), IpAddr::V6(s)) => {
+            let q = ip6(&Ip6H::new(s.octets(), c.octets(), qproto), l4);
+            let mut rest = vec![0u8; 4];
+            rest.extend_from_slice(&q);
+            ip_frame(net, P_ICMP6, &icmp6(&net.cip, &net.sip, typ, code, &rest))
+        }
+        _ => vec![],
+    }
+}
